@@ -8,14 +8,14 @@ open PV
 def idxIn (M : List (Key × Nat)) (f : Frame) : Nat := (M.lookup f.key).getD 0
 
 /-- source `s` shows the attributes of frame identity `k`. -/
-def Describes (s : Source) (k : Key) : Prop :=
-  s.fullName = k.fullName ∧ s.fileName = k.fileName ∧ s.inlined = k.inlined
+def Describes (o : Opts) (s : Source) (k : Key) : Prop :=
+  s.fullName = k.fullName o ∧ s.fileName = k.fileName o ∧ s.inlined = k.inlined
 
-structure WF (st : St) : Prop where
+structure WF (o : Opts) (st : St) : Prop where
   len : st.sources.elems.length = st.srcs.length + 1
   nn : st.sources.nonnil = true
   rng : ∀ k i, st.srcs.lookup k = some i → 1 ≤ i ∧ i < st.sources.elems.length
-  desc : ∀ k i, st.srcs.lookup k = some i → ∃ s, st.sources.elems[i]? = some s ∧ Describes s k
+  desc : ∀ k i, st.srcs.lookup k = some i → ∃ s, st.sources.elems[i]? = some s ∧ Describes o s k
   inj : ∀ k k' i, st.srcs.lookup k = some i → st.srcs.lookup k' = some i → k = k'
 
 /-- `st'` extends `st`: indices handed out stay valid, sources are only appended, and the appended
@@ -44,9 +44,9 @@ theorem lookup_cons_ne {β} (k k' : Key) (b : β) (l : List (Key × β)) (h : k 
   have : (k == k') = false := by simpa using h
   simp [List.lookup_cons, this]
 
-theorem getSrc_spec (st : St) (f : Frame) (h : WF st) :
-    WF (getSrc st f).1 ∧ Ext st (getSrc st f).1 ∧
-    (getSrc st f).1.srcs.lookup f.key = some (getSrc st f).2 := by
+theorem getSrc_spec (o : Opts) (st : St) (f : Frame) (h : WF o st) :
+    WF o (getSrc o st f).1 ∧ Ext st (getSrc o st f).1 ∧
+    (getSrc o st f).1.srcs.lookup f.key = some (getSrc o st f).2 := by
   unfold getSrc
   cases hl : st.srcs.lookup f.key with
   | some i => exact ⟨h, Ext.refl st, hl⟩
@@ -105,18 +105,18 @@ theorem getSrc_spec (st : St) (f : Frame) (h : WF st) :
 theorem idxIn_of_lookup {M : List (Key × Nat)} {f : Frame} {i : Nat} (h : M.lookup f.key = some i) :
     idxIn M f = i := by simp [idxIn, h]
 
-theorem pushFrames_spec (fs : List Frame) : ∀ (st : St) (idxs : Slice Nat), WF st →
-    WF (pushFrames st idxs fs).1 ∧ Ext st (pushFrames st idxs fs).1 ∧
-    (pushFrames st idxs fs).2.elems = idxs.elems ++ fs.map (idxIn (pushFrames st idxs fs).1.srcs) ∧
-    (idxs.nonnil = true → (pushFrames st idxs fs).2.nonnil = true) ∧
-    (∀ f ∈ fs, ((pushFrames st idxs fs).1.srcs.lookup f.key).isSome = true) := by
+theorem pushFrames_spec (o : Opts) (fs : List Frame) : ∀ (st : St) (idxs : Slice Nat), WF o st →
+    WF o (pushFrames o st idxs fs).1 ∧ Ext st (pushFrames o st idxs fs).1 ∧
+    (pushFrames o st idxs fs).2.elems = idxs.elems ++ fs.map (idxIn (pushFrames o st idxs fs).1.srcs) ∧
+    (idxs.nonnil = true → (pushFrames o st idxs fs).2.nonnil = true) ∧
+    (∀ f ∈ fs, ((pushFrames o st idxs fs).1.srcs.lookup f.key).isSome = true) := by
   induction fs with
   | nil => intro st idxs h; exact ⟨h, Ext.refl st, by simp [pushFrames], fun h => h, by simp⟩
   | cons f r ih =>
     intro st idxs h
-    obtain ⟨w1, e1, l1⟩ := getSrc_spec st f h
-    obtain ⟨w2, e2, el, nn, kn⟩ := ih (getSrc st f).1 (idxs.push (getSrc st f).2) w1
-    have hstep : pushFrames st idxs (f :: r) = pushFrames (getSrc st f).1 (idxs.push (getSrc st f).2) r := by
+    obtain ⟨w1, e1, l1⟩ := getSrc_spec o st f h
+    obtain ⟨w2, e2, el, nn, kn⟩ := ih (getSrc o st f).1 (idxs.push (getSrc o st f).2) w1
+    have hstep : pushFrames o st idxs (f :: r) = pushFrames o (getSrc o st f).1 (idxs.push (getSrc o st f).2) r := by
       simp [pushFrames]
     rw [hstep]
     have l2 := e2.mono _ _ l1
